@@ -223,7 +223,7 @@ type call struct {
 func TestConcurrentCallers(t *testing.T) {
 	hx.Check(t, hx.N{Quick: 20000, Thorough: 300000}, func(t *rapid.T, c *hx.Case) {
 		hx.Reset(hx.Epoch)
-		s := sched.New("tc.")
+		s := sched.New("tc.", "chain.checked") // also between the rule check and the evaluation of its outcome
 		defer s.Close()
 		T := rapid.SampledFrom([]float64{1, 2, 5, 10, 2.5}).Draw(t, "T")
 		q := rapid.SampledFrom([]int{0, 100, 500, 1000}).Draw(t, "Q")
